@@ -1285,6 +1285,11 @@ def run(ctx):
     by_part = {}
     for s in samples:
         by_part.setdefault(s["part"], []).append(s)
+    n_tog, v_tog = toggle_part()
+    viols += [Violation(**v) for v in v_tog]
+    stats["evaluations"] += n_tog
+    stats["nontrivial"] += n_tog
+    per_part["toggle"] = dict(evaluations=n_tog, nontrivial=n_tog, jobs=1)
     n_none, v_none, s_none = none_part()
     viols += [Violation(**v) for v in v_none]
     stats["evaluations"] += n_none
@@ -1443,10 +1448,137 @@ def none_part():
     return n, viols, samples
 
 
+
+def toggle_part():
+    """The switch flipped from ANOTHER thread, and the switch flipped WHILE a decorated call or a
+    context block is on the stack.  Small complete product, differential against plain code."""
+    common.bind_repo()
+    import threading
+    import typeguard
+    import beartype
+    import jaxtyping
+    from jaxtyping import Float, config, jaxtyped
+    from ..adapter import Duck, bindings_text
+
+    Fn = Float[Duck, "n"]
+    D3, D4 = Duck((3,)), Duck((4,))
+    viols, n = [], 0
+
+    def bad(key, what, rep):
+        viols.append(Violation(key=key, what=what, replay=dict(part="toggle", **rep)).to_json())
+
+    def in_thread(fn):
+        box = []
+
+        def run():
+            try:
+                box.append(("ok", fn()))
+            except BaseException as e:  # noqa: BLE001
+                box.append(("raised", type(e).__name__))
+
+        t = threading.Thread(target=run)
+        t.start()
+        t.join()
+        return box[0]
+
+    def top_level_probe():
+        return (isinstance(D3, Fn), isinstance(D4, Fn), bindings_text())
+
+    for tcn, tc in (("typeguard", typeguard.typechecked), ("beartype", beartype.beartype)):
+        def plain(x, y):
+            return (isinstance(D3, Fn), isinstance(D4, Fn))
+
+        def f(x, y):
+            return (isinstance(D3, Fn), isinstance(D4, Fn))
+
+        f.__annotations__ = {"x": Float[Duck, "a"], "y": Float[Duck, "a"]}
+        dec = jaxtyped(typechecker=tc)(f)
+        ill = (Duck((2,)), Duck((5,)))
+        try:
+            # --- threads
+            for who in ("main-sets/worker-calls", "worker-sets/main-calls", "worker-sets/other-worker-calls"):
+                rep = dict(case="thread", who=who, tc=tcn)
+                n += 1
+                config.update("jaxtyping_disable", False)
+                setter = (lambda: config.update("jaxtyping_disable", True))
+                if who.startswith("main-sets"):
+                    setter()
+                else:
+                    in_thread(setter)
+                want = ("ok", plain(*ill))
+                got_main = in_thread(lambda: dec(*ill)) if "worker-calls" in who else _safe(lambda: dec(*ill))
+                if got_main != want:
+                    bad(f"C19:toggle:thread:{who}", f"{tcn}: checking switched off by config.update ({who}); an ill-typed call gave {got_main}, the plain function gives {want}", rep)
+                # and back on, from the main thread: every thread checks again
+                config.update("jaxtyping_disable", False)
+                n += 1
+                again = in_thread(lambda: dec(*ill))
+                if again != ("raised", "TypeCheckError"):
+                    bad(f"C19:toggle:thread:{who}:re-enable", f"{tcn}: after switching checking back on, an ill-typed call from a worker thread gave {again}", rep)
+            # --- switch flipped while a decorated call / a context block is on the stack
+            for site in ("inside-decorated-call", "inside-context-block-off-to-on", "inside-context-block-on-to-off"):
+                rep = dict(case="during", site=site, tc=tcn)
+                n += 1
+                config.update("jaxtyping_disable", False)
+                err = None
+                try:
+                    if site == "inside-decorated-call":
+                        def body(x, y):
+                            config.update("jaxtyping_disable", True)
+                            return 0
+
+                        body.__annotations__ = {"x": Float[Duck, "n"], "y": Float[Duck, "n"]}
+                        jaxtyped(typechecker=tc)(body)(D3, Duck((3,)))
+                    elif site == "inside-context-block-off-to-on":
+                        config.update("jaxtyping_disable", True)
+                        with jaxtyped("context"):
+                            config.update("jaxtyping_disable", False)
+                            isinstance(D3, Fn)
+                        config.update("jaxtyping_disable", True)
+                    else:
+                        with jaxtyped("context"):
+                            isinstance(D3, Fn)
+                            config.update("jaxtyping_disable", True)
+                except BaseException as e:  # noqa: BLE001
+                    err = f"{type(e).__name__}: {e}"
+                # checking is off now: decorated code and top-level code must behave like plain code
+                got = (err, top_level_probe(), in_thread(lambda: 0) and None, _safe(lambda: dec(*ill)))
+                want = (None, (True, True, "\n"), None, ("ok", plain(*ill)))
+                if got != want:
+                    bad(f"C19:toggle:during:{site}", f"{tcn}: the switch was flipped {site}; afterwards (checking off) top-level checks / a decorated ill-typed call gave {got}, plain code gives {want}", rep)
+                config.update("jaxtyping_disable", False)
+                n += 1
+                after_on = top_level_probe()
+                if after_on != (True, True, "\n"):
+                    bad(f"C19:toggle:during:{site}:after-re-enable", f"{tcn}: after re-enabling, top-level checks gave {after_on} (a context was left open)", rep)
+        finally:
+            config.update("jaxtyping_disable", False)
+            try:
+                from jaxtyping import _storage
+
+                st_ = getattr(_storage._shape_storage, "memo_stack", None)
+                if st_:
+                    del st_[:]
+            except Exception:  # noqa: BLE001
+                pass
+    return n, viols
+
+
+def _safe(fn):
+    try:
+        return ("ok", fn())
+    except BaseException as e:  # noqa: BLE001
+        return ("raised", type(e).__name__)
+
+
 # --------------------------------------------------------------------------- replay
 
 
 def replay(rep):
+    if rep.get("part") == "toggle":
+        n, v = toggle_part()
+        mine = [x for x in v if x["replay"] == rep]
+        return dict(violations=[x["what"] for x in (mine or v)][:4], violates=bool(mine or v))
     if rep.get("part") == "none":
         n, v, _ = none_part()
         mine = [x for x in v if x["replay"] == rep]
